@@ -10,7 +10,7 @@ INC = -I/verif/shim $(foreach d,common Simplex_tree Persistence_matrix Zigzag_pe
 LDFLAGS_ASAN = $(SAN)
 
 ENGINES_SIMPLE = toplex skbl
-all: $(foreach e,$(ENGINES_SIMPLE),$(BUILD)/$(e)) $(BUILD)/st_hist $(BUILD)/pm_base
+all: $(foreach e,$(ENGINES_SIMPLE),$(BUILD)/$(e)) $(BUILD)/st_hist $(BUILD)/pm_base $(BUILD)/pm_hist $(BUILD)/zz_hist
 
 $(BUILD)/core.o: /verif/sim/core.cpp /verif/sim/core.h
 	@mkdir -p $(BUILD)
@@ -47,11 +47,19 @@ $(BUILD)/pm_base: $(BUILD)/pm_base.o $(BUILD)/core.o $(PMB_OBJS)
 	$(CXX) $(LDFLAGS_ASAN) $^ -o $@
 
 # pm_hist: a few configurations per translation unit
-PMH_TUS = 0 1 2 3 4 5 6 7 8 9 10 11 12 13
+PMH_TUS = 0 1 2 3 4 5 6 7 8 9 10 11 12 13 14 15 16 17 18 19 20 21
 $(foreach k,$(PMH_TUS),$(BUILD)/pm_hist_cfg_$(k).o): $(BUILD)/pm_hist_cfg_%.o: /verif/engines/pm_hist_cfg.cpp
 	@mkdir -p $(BUILD)
 	$(CXX) $(CXXFLAGS_COMMON) $(SAN) $(INC) -DPMH_TU=$* -c $< -o $@
 $(BUILD)/pm_hist: $(BUILD)/pm_hist.o $(BUILD)/core.o $(foreach k,$(PMH_TUS),$(BUILD)/pm_hist_cfg_$(k).o)
+	$(CXX) $(LDFLAGS_ASAN) $^ -o $@
+
+# zz_hist
+ZZ_TUS = 0 1 2 3 4
+$(foreach k,$(ZZ_TUS),$(BUILD)/zz_cfg_$(k).o): $(BUILD)/zz_cfg_%.o: /verif/engines/zz_cfg.cpp
+	@mkdir -p $(BUILD)
+	$(CXX) $(CXXFLAGS_COMMON) $(SAN) $(INC) -DZZ_TU=$* -c $< -o $@
+$(BUILD)/zz_hist: $(BUILD)/zz_hist.o $(BUILD)/core.o $(foreach k,$(ZZ_TUS),$(BUILD)/zz_cfg_$(k).o)
 	$(CXX) $(LDFLAGS_ASAN) $^ -o $@
 
 -include $(wildcard $(BUILD)/*.d)
